@@ -327,3 +327,162 @@ def answer(im, cmd, rest):
         line, extra, _ = run_eval(im, es)
         return line + '\t' + extra
     return 'bad-op'
+
+
+# ---------------------------------------------------------------- sessions (C11 / C17)
+class LRU2:
+    """bounded LRU mapping of size 2 (most recent last; a hit moves the entry to the end)"""
+
+    def __init__(self, n=2):
+        self.n, self.d = n, {}
+
+    def __contains__(self, k):
+        return k in self.d
+
+    def __getitem__(self, k):
+        v = self.d.pop(k)
+        self.d[k] = v
+        return v
+
+    def __setitem__(self, k, v):
+        if k in self.d:
+            self.d[k] = v
+        else:
+            self.d[k] = v
+            while len(self.d) > self.n:
+                del self.d[next(iter(self.d))]
+
+
+class Evict:
+    """always-evicting mapping: forgets everything at once"""
+
+    def __contains__(self, k):
+        return False
+
+    def __getitem__(self, k):
+        raise KeyError(k)
+
+    def __setitem__(self, k, v):
+        pass
+
+
+def make_cache(kind):
+    return {'none': lambda: None, 'dict': dict, 'lru2': LRU2, 'evict': Evict}[kind]()
+
+
+_fresh_table = {}
+
+
+def fresh_parse(ns, text):
+    """what a freshly constructed SqParser answers for parse(text): ('ok', tree) | ('err', cls, msg)"""
+    r = _fresh_table.get(text)
+    if r is None:
+        im = sqimpl.Impl(ns)
+        try:
+            t = im.p.parse(text)
+            r = ('ok', sqimpl.tree(ns, t))
+        except ns.exc.ParserError as e:
+            m = str(e)
+            r = ('err', 'lex' if m.startswith('Illegal character') else 'res' if m.endswith('is reserved keyword') else 'syn', m)
+        except Exception as e:
+            r = ('err', 'X' + type(e).__name__, str(e))
+        _fresh_table[text] = r
+    return r
+
+
+def run_session(im0, es, observe=None):
+    ns = im0.ns
+    kind = field(es, 'cache')[0]
+    cache = make_cache(kind)
+    im = sqimpl.Impl(ns, parse_cache=cache)
+    host = Host({})
+    host.classify = im.classify
+    rd = Reader(ns, host)
+    maps = rd.val(field(es, 'heap')[0])
+    outs, texts = [], []
+    VM = ns.vs.VMState
+    real_random = ns.functions.random
+    for c in field(es, 'calls'):
+        kindc = c[0]
+        if kindc == 'parse':
+            src = unhx(c[1])
+            texts.append(src)
+            try:
+                t = im.p.parse(src)
+                outs.append('ok ' + sqimpl.tree(ns, t))
+            except ns.exc.ParserError as e:
+                outs.append('err parser ' + hx(str(e)))
+            except Exception as e:
+                outs.append('X ' + type(e).__name__)
+        elif kindc == 'names':
+            src = unhx(c[1])
+            lim = None if c[2] == 'all' else int(c[2])
+            got, tail = [], ''
+            try:
+                it = im.p.list_names(src)
+                for n in it:
+                    if lim is not None and len(got) >= lim:
+                        break          # abandoned midway
+                    got.append(hx(n))
+            except ns.exc.ParserError as e:
+                tail = ' err parser ' + hx(str(e))
+            except Exception as e:
+                tail = ' X ' + type(e).__name__
+            outs.append('names ' + ' '.join(got) + tail)
+        elif kindc == 'eval':
+            src = unhx(c[1])
+            texts.append(src.rstrip())
+            names = maps[int(c[2])]
+            states = []
+
+            def vm_factory(*a, **k):
+                s = VM(*a, **k)
+                states.append(s)
+                return s
+            ns.sp.VMState = vm_factory
+            ns.functions.random = FakeRandom(int(c[4]))
+            kw = {} if c[3] == 'default' else {'max_ops_evaluated': int(c[3])}
+            w = Writer(ns, host)
+            try:
+                try:
+                    res = im.p.eval(src, names, **kw)
+                    hd = 'ok ' + w.val(res)
+                except RecursionError:
+                    outs.append('X RecursionError')
+                    break
+                except ns.exc.ParserError as e:
+                    hd = ('err parser ' + hx(str(e))) if not states else 'err ' + im.classify(e)
+                except Exception as e:
+                    hd = 'err ' + im.classify(e)
+            finally:
+                ns.sp.VMState = VM
+                ns.functions.random = real_random
+            outs.append(f'{hd} ;; names {w.val(names)} ;; ops {states[0].ops_evaluated if states else 0}')
+        elif kindc == 'hostpush':
+            names = maps[int(c[1])]
+            tgt = names.get(unhx(c[2]))
+            if type(tgt) is list:
+                tgt.append(Reader(ns, host).val(c[3]))
+                outs.append('host ok')
+            else:
+                outs.append('host skip')
+        else:
+            outs.append('bad-call')
+    return ' || '.join(outs), ''
+
+
+def fresh_entry(ns, t):
+    r = fresh_parse(ns, t)
+    return f'({hx(t)} ok {r[1]})' if r[0] == 'ok' else f'({hx(t)} err {r[1]} {hx(r[2])})'
+
+
+_answer_eval = answer
+
+
+def answer(im, cmd, rest):
+    if cmd == 'SESSION':
+        line, extra = run_session(im, sread(rest))
+        return line
+    if cmd == 'FRESH':
+        return fresh_entry(im.ns, unhx(rest))
+    return _answer_eval(im, cmd, rest)
